@@ -355,7 +355,11 @@ def replay(prop, path):
         init = {}
     if init.get("ev") == "Init":
         gid = str(init.get("gid", ""))
-        if "pcfg" in init:
+        if "lex" in init:
+            module, cfg = "Trace_Lex", None
+        elif gid.startswith("batch:"):
+            module, cfg = "Trace_Ffi", None
+        elif "pcfg" in init:
             module, cfg = "Trace_CfgP", None
         elif "rx" in init:
             module, cfg = "Trace_Regex", None
